@@ -1,4 +1,4 @@
 SPECIFICATION Spec
-CONSTANTS Ns = {12, 24} Rs = {1, 2, 3} Spans = {1, 3} MaxT = 2 Nppr = {1, 2, 4}
+CONSTANTS Ns = {12, 24} Rs = {1, 2, 3} Spans = {1, 3} MaxT = 2 Nppr = {1, 4}
 INVARIANTS Inv1 Inv2 Inv3 Inv4 Inv5 Inv6 Inv7
 CHECK_DEADLOCK FALSE
